@@ -148,7 +148,7 @@ def check_diagnostics(ctx, impl, cnt, text, filename, lineno, recs):
         pos = r['positions']
         if not pos:
             if kind in ac.VALIDATE_KINDS:
-                ctx.report_failure(ac.KEY_NO_POSITION, ac.PENDING_FINDINGS[1]['what'],
+                ctx.report_failure(ac.KEY_NO_POSITION, ac.PENDING_FINDINGS[0]['what'],
                                    {'kind': 'text', 'text': text, 'diagnostic': r['text']})
                 cnt.hit('diag:pending(no-position)')
                 continue
@@ -185,7 +185,7 @@ def check_diagnostics(ctx, impl, cnt, text, filename, lineno, recs):
                                        {'kind': 'text', 'text': text, 'lineno': lineno, 'diagnostic': r})
                 continue
             if r['marker_line'] != src and idx == len(lines) - 1 and end_comment(impl, src) == r['marker_line']:
-                ctx.report_failure(ac.KEY_END_TEXT, ac.PENDING_FINDINGS[3]['what'],
+                ctx.report_failure(ac.KEY_END_TEXT, ac.PENDING_FINDINGS[1]['what'],
                                    {'kind': 'text', 'text': text, 'lineno': lineno, 'diagnostic': r['text']})
                 cnt.hit('diag:pending(end-line-text)')
             elif r['marker_line'] != src:
@@ -305,13 +305,8 @@ def check_text(ctx, impl, cnt, text, filename, lineno, survivors):
     verdict = 'block' if b is not None else 'none'
     if exc is not None:
         verdict = 'raised'
-        if ac.is_len_none_defect(exc, text):
-            ctx.report_failure(ac.KEY_LEN_NONE, ac.PENDING_FINDINGS[0]['what'],
-                               {'kind': 'text', 'text': text, 'lineno': lineno})
-            cnt.hit('pending(len-None)')
-        else:
-            ctx.report_failure('raise:' + json.dumps(text), 'parse_comment_block raised %r for %r' % (exc, text),
-                               {'kind': 'text', 'text': text, 'lineno': lineno})
+        ctx.report_failure('raise:' + json.dumps(text), 'parse_comment_block raised %r for %r' % (exc, text),
+                           {'kind': 'text', 'text': text, 'lineno': lineno})
     for r in recs:
         cnt.hit('kind:' + ac.kind_of(r['text']))
     check_diagnostics(ctx, impl, cnt, text, filename, lineno, recs)
